@@ -95,6 +95,44 @@ Section Facts.
     - eapply Qcle_trans; [apply clamp_toward; exact By|]. apply scaled_disp_capped; assumption.
   Qed.
 
+  (* ---------------- leaving through a border / a corner ---------------- *)
+  (* the two clamps are INDEPENDENT: what happens to x does not depend on whether y had
+     to be clamped in the same step, and vice versa *)
+  Lemma clamp_low hi x : 0 <= hi -> x <= - hi -> clamp hi x = - hi.
+  Proof. intros Hhi Hx. unfold clamp. qmlra. Qed.
+
+  Lemma clamp_high hi x : 0 <= hi -> hi <= x -> clamp hi x = hi.
+  Proof. intros Hhi Hx. unfold clamp. qmlra. Qed.
+
+  Lemma move_axes W H t p d n : 0 <= W -> 0 <= H ->
+    let qx := fst p + fst d / n * Qcmin n t in
+    let qy := snd p + snd d / n * Qcmin n t in
+    let r := move W H t p d n in
+    (qx <= - (W * half) -> fst r = - (W * half)) /\ (W * half <= qx -> fst r = W * half) /\
+    (- (W * half) <= qx <= W * half -> fst r = qx) /\
+    (qy <= - (H * half) -> snd r = - (H * half)) /\ (H * half <= qy -> snd r = H * half) /\
+    (- (H * half) <= qy <= H * half -> snd r = qy).
+  Proof.
+    intros HW HH qx qy r. subst r. unfold move; cbn [fst snd]. fold qx qy.
+    assert (0 <= W * half) by qlra. assert (0 <= H * half) by qlra.
+    splits; intros Hq; first [apply clamp_low|apply clamp_high|apply clamp_id]; assumption.
+  Qed.
+
+  (* a step that would carry the module past BOTH borders of a corner (east? north?)
+     ends exactly on that corner *)
+  Lemma move_corner W H t p d n (east north : bool) : 0 <= W -> 0 <= H ->
+    let qx := fst p + fst d / n * Qcmin n t in
+    let qy := snd p + snd d / n * Qcmin n t in
+    (if east then W * half <= qx else qx <= - (W * half)) ->
+    (if north then H * half <= qy else qy <= - (H * half)) ->
+    move W H t p d n = (if east then W * half else - (W * half), if north then H * half else - (H * half)).
+  Proof.
+    intros HW HH qx qy Hx Hy.
+    destruct (move_axes W H t p d n HW HH) as (X1 & X2 & _ & Y1 & Y2 & _). fold qx qy in X1, X2, Y1, Y2.
+    rewrite (surjective_pairing (move W H t p d n)).
+    destruct east, north; f_equal; auto.
+  Qed.
+
   (* ---------------- the loop ---------------- *)
   Lemma iterate_length force W H dt fx : forall n i t pos,
     length (iterate force W H dt fx n i t pos) = length pos.
@@ -190,6 +228,48 @@ Section Facts.
     - unfold fr_layout; cbn [modules]. rewrite write_back_nth by apply final_pos_length.
       rewrite Hm. unfold final_pos. rewrite Hq. unfold set_centre. rewrite Hf. reflexivity.
     - unfold in_die; cbn [fst snd]. destruct Bx, By. splits; qlra.
+  Qed.
+
+  (* the last iteration: iterate (S n) = n iterations, then one step at the temperature reached *)
+  Lemma iterate_last force W H dt fx : forall n i t pos,
+    iterate force W H dt fx (S n) i t pos =
+    step W H (temp_at t dt n) fx (iterate force W H dt fx n i t pos)
+         (force (i + n)%nat (temp_at t dt n) (iterate force W H dt fx n i t pos)).
+  Proof.
+    induction n as [|n IH]; intros i t pos.
+    - cbn [iterate temp_at]. rewrite Nat.add_0_r. reflexivity.
+    - change (iterate force W H dt fx (S (S n)) i t pos)
+        with (iterate force W H dt fx (S n) (S i) (t - dt) (step W H t fx pos (force i t pos))).
+      rewrite IH. cbn [iterate temp_at]. replace (S i + n)%nat with (i + S n)%nat by lia. reflexivity.
+  Qed.
+
+  (* a movable module that the LAST iteration would carry out of the die through a corner
+     (past both borders in the same step) is returned with its centre exactly on that corner *)
+  Theorem fr_last_step_corner force W H k (nl : netlist) v m p (east north : bool) :
+    0 <= W -> 0 <= H ->
+    nth_error (modules nl) v = Some m -> is_fixed m = false ->
+    let fx := map is_fixed (modules nl) in
+    let tl := temp_at (t_init W H) (dt_of W H (S k)) k in
+    let pos := iterate force W H (dt_of W H (S k)) fx k 0 (t_init W H) (map (recentre W H) (modules nl)) in
+    let d := fst (force k tl pos v) in
+    let n := snd (force k tl pos v) in
+    nth_error pos v = Some p ->
+    (if east then W * half <= fst p + fst d / n * Qcmin n tl else fst p + fst d / n * Qcmin n tl <= - (W * half)) ->
+    (if north then H * half <= snd p + snd d / n * Qcmin n tl else snd p + snd d / n * Qcmin n tl <= - (H * half)) ->
+    nth_error (modules (fr_layout force W H (S k) nl)) v =
+    Some (mkMod (Some (if east then W else 0, if north then H else 0)) false (payload m)).
+  Proof.
+    intros HW HH Hm Hf fx tl pos d n Hp Hx Hy.
+    assert (Hfx : nth_error fx v = Some false).
+    { unfold fx. rewrite nth_error_map', Hm. cbn [option_map]. rewrite Hf. reflexivity. }
+    assert (Hq : nth_error (final_pos force W H (S k) nl) v =
+                 Some (if east then W * half else - (W * half), if north then H * half else - (H * half))).
+    { unfold final_pos. rewrite iterate_last. fold fx. fold pos. fold tl. cbn [Nat.add].
+      rewrite (step_movable W H tl fx pos _ v p Hfx Hp). f_equal.
+      apply move_corner; assumption. }
+    unfold fr_layout; cbn [modules]. rewrite write_back_nth by apply final_pos_length.
+    rewrite Hm, Hq. unfold set_centre. rewrite Hf. cbn [fst snd]. f_equal. f_equal. f_equal.
+    destruct east, north; f_equal; unfold half; qc_norm; try ring; lra.
   Qed.
 
   (* zero iterations: every centre is returned as it was (modules without a
